@@ -564,6 +564,10 @@ impl Machine {
         ));
 
         self.run_module_predicate(atom!("loader"), (atom!("consult_stream"), 2));
+
+        // a ball that ended the load (e.g. `file_load_error`) has been reported by the loader;
+        // left in place it would be reported by the next query as that query's exception.
+        self.machine_st.ball.reset();
     }
 
     pub(crate) fn allocate_stub_choice_point(&mut self) -> Result<(), AllocError> {
